@@ -106,9 +106,20 @@ func guarded(f func() (*config.Config, error)) loadResult {
 	case r := <-done:
 		return r
 	case <-time.After(5 * time.Second):
+	}
+	// Past the nominal 5 s bound. Wall time on a loaded machine (16 cores shared with other checks) is not CPU
+	// time: a 1 MB document that parses in about a second alone was seen to take longer under load. A real hang never
+	// returns, so give the SAME call a generous grace period before judging; a late return is counted as slow.
+	select {
+	case r := <-done:
+		slowLoads.Add(1)
+		return r
+	case <-time.After(40 * time.Second):
 		return loadResult{class: "HANG"}
 	}
 }
+
+var slowLoads atomic.Int64 // calls that returned only after the 5 s watchdog (machine load), not judged
 
 func load(s string) loadResult {
 	return guarded(func() (*config.Config, error) { return config.Load(s) })
@@ -552,7 +563,7 @@ func (x *runner) loadCase(seed uint64) {
 		x.violate(panicKey(c, res.panicFn), "config.Load panics: "+res.panicV+" in "+res.panicFn, cs)
 		obs = "OPanic"
 	case "HANG":
-		x.violate("load-hangs", "config.Load did not return within 5s", cs)
+		x.violate("load-hangs", "config.Load did not return within 45s", cs)
 		return
 	case "error":
 		k := errKind(res.err)
@@ -1024,7 +1035,7 @@ func (x *runner) malformed(name string, b []byte) {
 		cs.Obs = res.panicV + " in " + res.panicFn
 		x.violate(textPanicKey(string(b), res.panicFn), "config.Load panics on malformed input ("+name+"): "+res.panicV, cs)
 	case "HANG":
-		x.violate("malformed-input-hangs", "config.Load does not return within 5s on malformed input ("+name+")", cs)
+		x.violate("malformed-input-hangs", "config.Load does not return within 45s on malformed input ("+name+")", cs)
 	}
 }
 
@@ -1217,6 +1228,7 @@ func TestCheck(t *testing.T) {
 		}
 		run.Rep.Distribution["secret_typed_field_paths"] = map[string]any{"total": len(total), "set_by_some_case": covered, "never_set": missing}
 	}
+	run.Rep.Distribution["loads_slower_than_5s_not_judged"] = slowLoads.Load()
 	if err := run.Finish("a load case is non-trivial when a fault was injected; secret cases when a secret is set; every reload case"); err != nil {
 		t.Fatal(err)
 	}
